@@ -79,6 +79,44 @@ def render(prods, nts, deco):
     return "\n".join(lines) + "\n"
 
 
+def split_order(prods, nts):
+    """the same grammar with every rule defined in two parts - its first
+    alternative, then (after the other rules) the remaining ones; parglare
+    merges multiple definitions of a rule.  Returns (productions in the new
+    text order, old index -> new index) or None if nothing can be split."""
+    first, rest = [], []
+    seen = set()
+    for pi, (l, r) in enumerate(prods):
+        (rest if l in seen else first).append(pi)
+        seen.add(l)
+    if not rest or len({prods[pi][0] for pi in first}) < 2:
+        return None
+    order = first + rest
+    return [prods[pi] for pi in order], {old: new for new, old in enumerate(order)}
+
+
+def render_split(prods, nts, deco):
+    """text with one definition per production run: rules are NOT grouped"""
+    lines = []
+    prev = None
+    for pi, (l, r) in enumerate(prods):
+        parts = []
+        for j, x in enumerate(r):
+            d = deco.get((pi, j))
+            parts.append(f"{d[0]}{d[1]}{x}" if d else x)
+        body = " ".join(parts) if parts else "EMPTY"
+        if l == prev:
+            lines[-1] = lines[-1][:-1] + " | " + body + ";"
+        else:
+            lines.append(f"{l}: {body};")
+        prev = l
+    used = sorted({x for _, r in prods for x in r if x in ("a", "b")})
+    if used:
+        lines.append("terminals")
+        lines += [f'{t}: "{t}";' for t in used]
+    return "\n".join(lines) + "\n"
+
+
 def make_actions(prods, nts, style):
     """style: 'rule' one recording action per rule, 'list' one per
     alternative, 'none'"""
@@ -140,7 +178,10 @@ def reference(tree, prods, deco, style):
                 # the named matches of this alternative
                 return ("OBJ", rule, tuple(sorted(kw.items())))
             return subs[0] if len(subs) == 1 else subs
-        return ("R", rule, pi - first[rule], subs, tuple(sorted(kw.items())))
+        # alternative index = position among the rule's alternatives in
+        # text order (a rule may be defined in several parts)
+        alt = sum(1 for q in range(pi) if prods[q][0] == rule)
+        return ("R", rule, alt, subs, tuple(sorted(kw.items())))
     return ev(tree)
 
 
@@ -163,11 +204,19 @@ def run_unit(u):
     for gi in u["idx"]:
         prods = spaces.ordered_prods(gs[gi], nts)
         gk = spaces.gkey(prods, nts)
-        for deco in decorations(prods):
-            text = render(prods, nts, deco)
-            for style in ("rule", "list", "none"):
+        variants = [(prods, deco, render(prods, nts, deco), ("rule", "list", "none"))
+                    for deco in decorations(prods)]
+        sp_ = split_order(prods, nts)
+        if sp_ is not None:
+            sprods, remap = sp_
+            # without named matches: a rule whose parts carry different
+            # (implicit obj) actions is rejected by the grammar language
+            variants.append((sprods, {}, render_split(sprods, nts, {}),
+                             ("list", "rule")))
+        for vprods, deco, text, styles in variants:
+            for style in styles:
                 cfg = f"{style}"
-                acts = lambda: make_actions(prods, nts, style)   # noqa: E731
+                acts = lambda: make_actions(vprods, nts, style)   # noqa: E731
                 try:
                     p1 = build("lr", grammar_from_string(text), mon,
                                tag=(gi, 1), actions=acts(), ws="")
@@ -201,7 +250,7 @@ def run_unit(u):
                         r2 = None
                     else:
                         t = tree_canon(o2.value)
-                        want = reference(t, prods, deco, style)
+                        want = reference(t, vprods, deco, style)
                         r2 = norm(p2.call_actions(o2.value))
                         if r1 != want:
                             probs.append(("on-the-fly result != reference",
